@@ -1519,7 +1519,7 @@ impl TypeLayout {
 
     pub fn can_be_used_as_list_index(&self) -> bool {
         matches!(
-            self,
+            self.disregard_distractors(false),
             TypeLayout::Native(NativeType::Int | NativeType::BigInt)
         )
     }
@@ -1909,7 +1909,7 @@ impl TypeLayout {
     ) -> Result<bool> {
         match self {
             Self::ValidIndexes(end) => ListBound::val_fits_between(end, value),
-            other => Ok(&value.for_type(flags)? == other),
+            other => Ok(value.for_type(flags)?.disregard_distractors(false) == other),
         }
     }
 
